@@ -119,6 +119,30 @@ type child struct {
 	// discoveryValues: the string values (>= 8 bytes) of the discovery document the server hands to
 	// an AUTHENTICATED client: auth token, owner, key ids, storage generation, handler URLs ...
 	discoveryValues []string
+	// warm: the process token (auth.Token()) may have been generated.  It is false from process
+	// start to the end of the cold-start phase, during which the harness itself must neither
+	// ask for the token nor send any authenticated or discovery request.
+	warm bool
+	// coldStealth: answers of the stealth root to cold-start requests, judged once the
+	// authenticated discovery document is known
+	coldStealth []coldAnswer
+}
+
+type coldAnswer struct {
+	rs   reqSpec
+	mode string
+	ri   respInfo
+}
+
+// token returns the process token.  Asking for it generates it, which ends the cold state of
+// the process: a call during the cold-start phase is a harness mistake and is reported.
+func (c *child) token() string {
+	if !c.warm {
+		c.mu.Lock()
+		c.res.Inconclusive = append(c.res.Inconclusive, c.spec.Name+": harness mistake: the process token was asked for during the cold-start phase")
+		c.mu.Unlock()
+	}
+	return auth.Token()
 }
 
 func (c *child) violation(sig, what string, replay any) {
@@ -269,7 +293,7 @@ func (c *child) setCred() error {
 		// pkg/auth's tokenAuth accepts the process token (auth.Token()), which is what the
 		// server hands to authenticated clients in discovery.
 		c.rightPass = arg
-		c.cred = func(r *http.Request) { r.Header.Set("Authorization", "Token "+auth.Token()) }
+		c.cred = func(r *http.Request) { r.Header.Set("Authorization", "Token "+c.token()) }
 	default:
 		return fmt.Errorf("auth mode %q does not require credentials from a loopback client", kind)
 	}
@@ -392,10 +416,20 @@ func (c *child) run(checkpoint func()) {
 		c.note("handler_types", t)
 	}
 	sort.Strings(c.storageP)
+	if err := c.buildWorld(); err != nil {
+		res.Fatal = "building the canary world: " + err.Error()
+		return
+	}
+	// Cold start: the very first requests this process receives are unauthenticated ones.  Nothing
+	// before this line sent a request over HTTP or asked pkg/auth for the process token.
+	c.coldStart()
+	c.warm = true
+	checkpoint()
 	if err := c.populate(); err != nil {
 		res.Fatal = "populating the server with credentials: " + err.Error()
 		return
 	}
+	c.judgeColdStealth()
 	checkpoint()
 	c.unauthenticated()
 	checkpoint()
@@ -460,6 +494,7 @@ func (c *child) send(rs reqSpec, mode string) respInfo {
 		body = strings.NewReader(rs.Body)
 	}
 	path := rs.Path
+	mode = strings.TrimPrefix(mode, coldPrefix)
 	switch mode {
 	case "ws-upgrade-empty-token", "ws-upgrade-wrong-token":
 		// pkg/auth accepts "GET + Upgrade: websocket + authtoken=<process token>" in place of a header
@@ -498,9 +533,13 @@ func (c *child) send(rs reqSpec, mode string) respInfo {
 		req.SetBasicAuth("alice", "")
 	case "truncated-token":
 		// a proper prefix of the process token is not the token
-		t := auth.Token()
+		t := c.token()
 		req.Header.Set("Authorization", "Token "+t[:len(t)/2])
-	case "ws-upgrade-empty-token", "ws-upgrade-wrong-token":
+	case "empty-token-header":
+		// the token scheme with no token at all
+		req.Header.Set("Authorization", "Token ")
+	case "ws-upgrade-empty-token", "ws-upgrade-wrong-token", "ws-upgrade-no-token":
+		// (no-token: the request has no authtoken parameter at all)
 		req.Header.Set("Upgrade", "websocket")
 		req.Header.Set("Connection", "Upgrade")
 	}
@@ -521,8 +560,10 @@ func (c *child) leak(rs reqSpec, ri respInfo) string {
 		return "canary content marker"
 	}
 	// the process token is a credential: whoever presents it is granted every operation
-	if tok := auth.Token(); len(tok) >= 16 && bytes.Contains(hay, []byte(tok)) {
-		return "the server's auth token (a credential granting full access)"
+	if c.warm {
+		if tok := c.token(); len(tok) >= 16 && bytes.Contains(hay, []byte(tok)) {
+			return "the server's auth token (a credential granting full access)"
+		}
 	}
 	sent := rs.Path + " " + rs.Body
 	for _, r := range c.refs {
@@ -673,9 +714,9 @@ func (c *child) put(prefix string, b sto.Blob) error {
 	return nil
 }
 
-// populate uploads (with credentials) the canary world: private blobs that no share reaches,
-// and a small shared tree for the share-path sample.
-func (c *child) populate() error {
+// buildWorld makes (without sending anything) the canary world: private blobs that no share
+// reaches, and a small shared tree for the share-path sample.
+func (c *child) buildWorld() error {
 	rng := rand.New(rand.NewSource(c.spec.Seed))
 	w := newWorld(c.spec.Name, "canaries")
 	g := &gen{w: w, rng: rng, s: hw.NewSigner(1)}
@@ -724,6 +765,12 @@ func (c *child) populate() error {
 			c.refs = append(c.refs, b.Ref.String())
 		}
 	}
+	return nil
+}
+
+// populate uploads the canary world with credentials.
+func (c *child) populate() error {
+	w := c.w
 	// discovery with credentials tells where to upload
 	ri := c.send(reqSpec{Method: "GET", Path: "/?camli.mode=config"}, "cred")
 	if ri.Err != nil || ri.Status != 200 {
@@ -765,7 +812,7 @@ func (c *child) populate() error {
 	}
 	walk(doc)
 	sort.Strings(c.discoveryValues)
-	if seen[auth.Token()] {
+	if seen[c.token()] {
 		c.note("discovery", "authenticated-document-carries-the-auth-token")
 	}
 	c.count("discovery_values_watched", len(c.discoveryValues))
@@ -1025,7 +1072,7 @@ func (c *child) unauthenticated() {
 		i = j
 	}
 	modes := []string{"none", "wrong-basic", "wrong-token", "empty-basic", "wronguser-rightpass", "rightuser-empty-pass", "truncated-token",
-		"ws-upgrade-empty-token", "ws-upgrade-wrong-token"}
+		"ws-upgrade-empty-token", "ws-upgrade-wrong-token", "ws-upgrade-no-token", "empty-token-header"}
 	for _, g := range groups {
 		type item struct {
 			rs   reqSpec
@@ -1156,7 +1203,11 @@ func (c *child) lateSettling(before, after []string) bool {
 // judgeUnauth sends one request without valid credentials and applies the oracle; it returns
 // whether the request was NOT refused.
 func (c *child) judgeUnauth(rs reqSpec, mode string) bool {
-	ri := c.send(rs, mode)
+	return c.judgeAnswer(rs, mode, c.send(rs, mode))
+}
+
+// judgeAnswer applies the oracle for requests without valid credentials to one answer.
+func (c *child) judgeAnswer(rs reqSpec, mode string, ri respInfo) bool {
 	c.mu.Lock()
 	c.res.Evals++
 	c.res.Distinct = append(c.res.Distinct, fmt.Sprintf("%s;%s;%s %s", c.spec.Name, mode, rs.Method, rs.Path))
@@ -1308,7 +1359,7 @@ func (c *child) authenticated() {
 					c.note("with_credentials_403", fmt.Sprintf("%s %s/%s: %s", rs.Method, rs.HType, rs.Kind, trunc(strings.TrimSpace(string(ri.Body)), 60)))
 				}
 				c.count("with_credentials_not_refused", 1)
-				if ri.Status/100 == 2 && rs.Class == "stealth" && rs.Method == "GET" && bytes.Contains(ri.Body, []byte(auth.Token())) {
+				if ri.Status/100 == 2 && rs.Class == "stealth" && rs.Method == "GET" && bytes.Contains(ri.Body, []byte(c.token())) {
 					// the stealth root does answer discovery when the credentials are right
 					c.note("stealth_with_credentials", "discovery-served")
 				}
